@@ -1,1 +1,365 @@
-/-! C13 — property theorems (placeholder until the model exists). -/
+import EupsModel.Lemmas.DepsTotal
+/-! C13 — dependency listings are complete and ordered; `uses` is their inverse.
+Property theorems only.  Models: `Model/Topo.lean`, `Model/Deps.lean`; lemmas: `Lemmas/Topo.lean`,
+`Lemmas/TopoSpec.lean`, `Lemmas/TopoTotal.lean`, `Lemmas/Deps.lean`, `Lemmas/DepsFuel.lean`, `Lemmas/DepsTopo.lean`,
+`Lemmas/Uses.lean`, `Lemmas/DepsTotal.lean`.
+
+Vocabulary (defined in `Lemmas/Deps.lean`, `Lemmas/DepsTopo.lean`):
+* `Edge db [] u v`   — the table of `u` has a setup line that denotes `v` (resolved, or the placeholder of an
+  unresolved line);
+* `XReach db [] top w` — the listing of `top` opens the table of `w`: `w = top`, or `w` is a declared product
+  reached from `top` through lines without `-j`;
+* `Listed db [] top v` — some opened table has a line denoting `v`: "reachable through its table files (as resolved)";
+* `DepPath db top a b` — `b` is reachable from `a` along lines of opened tables;
+* `NoUnsetup db`     — no table has an `unsetupRequired` line and every declared table file exists (the property does
+  not say what an unsetup line or an unreadable table means for a listing; known finding D32 lives there);
+* `SingleVersion db top` — the closure of `top` holds no product in two versions. -/
+namespace EupsModel.C13
+open EupsModel EupsModel.Topo EupsModel.Deps
+
+/-! ## the listing is the reachable set -/
+
+/-- **Complete and exact, and it terminates** — on every database without unsetup lines, cyclic ones included,
+with the fuel the driver uses, the plain listing returns, and the products it lists are exactly those
+reachable from the root through resolved tables, minus the root. -/
+theorem C13_listing_is_reach (db : Db) (hns : NoUnsetup db) (top : Prod) :
+    ∃ out, getDependentProducts db db.fuel top false false = .ok out ∧
+      ∀ v, v ∈ out.map (·.prod) ↔ (Listed db [] top v ∧ v ≠ top) := by
+  obtain ⟨o, st, h⟩ := depsOf_some db hns [] db.fuel top 1 St.empty (fuel_enough db)
+  have hl : listing db db.fuel [] top = some (o.filter (fun e => e.prod != top), st) := by simp [listing, h]
+  refine ⟨o.filter (fun e => e.prod != top), by simp [getDependentProducts, hl, tableMissing_false hns top], ?_⟩
+  intro v
+  rw [← depsOf_listed hns h v]
+  simp only [List.mem_map, List.mem_filter, bne_iff_ne, ne_eq]
+  constructor
+  · rintro ⟨e, ⟨he, hne⟩, rfl⟩; exact ⟨⟨e, he, rfl⟩, hne⟩
+  · rintro ⟨⟨e, he, rfl⟩, hne⟩; exact ⟨e, ⟨he, hne⟩, rfl⟩
+
+/-- In topological mode (with or without `checkCycles`) a returned listing holds the same products, each
+exactly once — whatever the versions in the closure. -/
+theorem C13_topological_listing (db : Db) (hns : NoUnsetup db) (fuel : Nat) (top : Prod) (cc : Bool)
+    (out : List Entry) (h : getDependentProducts db fuel top true cc = .ok out) :
+    (out.map (·.prod)).Nodup ∧ ∀ v, v ∈ out.map (·.prod) ↔ (Listed db [] top v ∧ v ≠ top) :=
+  topo_listing_set hns h
+
+/-! ## order -/
+
+/-- **Topological order** (partial: hypothesis `SingleVersion`, because the code assigns depth per product
+*name* from a second pass that pins every name to one version — known finding D31).
+For every edge `u → v` of the closure (a line of the opened table of `u` denotes `v`) whose ends are in
+different components (`u` is not reachable back from `v`), the dependency `v` is listed strictly deeper. -/
+theorem C13_topological_partial (db : Db) (hns : NoUnsetup db) (fuel : Nat) (top : Prod)
+    (hsv : SingleVersion db top) (cc : Bool) (out : List Entry)
+    (h : getDependentProducts db fuel top true cc = .ok out)
+    (eu ev : Entry) (hu : eu ∈ out) (hv : ev ∈ out)
+    (hopen : XReach db [] top eu.prod) (hedge : Edge db [] eu.prod ev.prod)
+    (hcomp : ¬ DepPath db top ev.prod eu.prod) :
+    ∃ du dv, eu.depth = some du ∧ ev.depth = some dv ∧ du < dv := by
+  obtain ⟨o, st, ls, lvl, C, _, hlt, hord, hout⟩ := topo_levels hns hsv h
+  obtain ⟨hul, _, hud⟩ := hout eu hu
+  obtain ⟨hvl, _, hvd⟩ := hout ev hv
+  have hne : ev.prod ≠ eu.prod := fun he => hcomp (he ▸ DepPath.refl _)
+  have huk := (keys_graph_iff C eu.prod).mpr (Or.inr hul)
+  have hs : ev.prod ∈ succs (normalise (graphOf st)) eu.prod := (succs_graph_iff C _ _).mpr ⟨hne, hopen, hedge⟩
+  have hnp : ¬ Path (normalise (graphOf st)) ev.prod eu.prod := fun hp => hcomp (path_to_depPath C hp)
+  have h1 := hord _ huk _ hs hnp
+  have h2 := hlt _ huk
+  exact ⟨_, _, hud, hvd, by omega⟩
+
+/-- `Distrib.createDependencies` installs in the order `dependencies.sort(key = -depth)` -/
+def buildOrder (out : List Entry) : List Entry :=
+  sortStable (fun a b => decide (b.depth.getD 0 ≤ a.depth.getD 0)) out
+
+theorem pairwise_insertS {β : Type} (le : β → β → Bool) (htot : ∀ a b, le a b = false → le b a = true)
+    (htr : ∀ a b c, le a b = true → le b c = true → le a c = true) (x : β) :
+    ∀ l : List β, l.Pairwise (fun a b => le a b = true) → (insertS le x l).Pairwise (fun a b => le a b = true) := by
+  intro l
+  induction l with
+  | nil => intro _; simp [insertS]
+  | cons y ys ih =>
+    intro hp
+    simp only [insertS]
+    obtain ⟨hy, hys⟩ := List.pairwise_cons.mp hp
+    split
+    · rename_i hxy
+      refine List.pairwise_cons.mpr ⟨?_, hp⟩
+      intro z hz
+      simp only [List.mem_cons] at hz
+      rcases hz with rfl | hz
+      · exact hxy
+      · exact htr _ _ _ hxy (hy z hz)
+    · rename_i hxy
+      have hyx : le y x = true := htot _ _ (by simpa using hxy)
+      refine List.pairwise_cons.mpr ⟨?_, ih hys⟩
+      intro z hz
+      rw [mem_insertS] at hz
+      rcases hz with rfl | hz
+      · exact hyx
+      · exact hy z hz
+
+theorem pairwise_sortStable {β : Type} (le : β → β → Bool) (htot : ∀ a b, le a b = false → le b a = true)
+    (htr : ∀ a b c, le a b = true → le b c = true → le a c = true) :
+    ∀ l : List β, (sortStable le l).Pairwise (fun a b => le a b = true) := by
+  intro l
+  induction l with
+  | nil => simp [sortStable]
+  | cons a as ih => exact pairwise_insertS le htot htr a _ ih
+
+/-- **Build order**: in the order the installer uses (decreasing depth), a product never comes before one of
+its dependencies from another component. -/
+theorem C13_build_order (db : Db) (hns : NoUnsetup db) (fuel : Nat) (top : Prod)
+    (hsv : SingleVersion db top) (cc : Bool) (out : List Entry)
+    (h : getDependentProducts db fuel top true cc = .ok out)
+    (i j : Nat) (hi : i < (buildOrder out).length) (hj : j < (buildOrder out).length)
+    (hopen : XReach db [] top (buildOrder out)[i].prod)
+    (hedge : Edge db [] (buildOrder out)[i].prod (buildOrder out)[j].prod)
+    (hcomp : ¬ DepPath db top (buildOrder out)[j].prod (buildOrder out)[i].prod) : j < i := by
+  have hmi : (buildOrder out)[i] ∈ out := (mem_sortStable _ _ _).mp (List.getElem_mem hi)
+  have hmj : (buildOrder out)[j] ∈ out := (mem_sortStable _ _ _).mp (List.getElem_mem hj)
+  obtain ⟨du, dv, h1, h2, hlt⟩ :=
+    C13_topological_partial db hns fuel top hsv cc out h _ _ hmi hmj hopen hedge hcomp
+  have hsorted := pairwise_sortStable (fun a b : Entry => decide (b.depth.getD 0 ≤ a.depth.getD 0))
+    (by intro a b hab; simp only [decide_eq_false_iff_not, decide_eq_true_eq] at hab ⊢; omega)
+    (by intro a b c hab hbc; simp only [decide_eq_true_eq] at hab hbc ⊢; omega) out
+  apply Classical.byContradiction
+  intro hnot
+  have hle : i ≤ j := by omega
+  rcases Nat.lt_or_eq_of_le hle with hlt' | heq
+  · have := (List.pairwise_iff_getElem.mp hsorted) i j hi hj hlt'
+    simp only [decide_eq_true_eq] at this
+    unfold buildOrder at h1 h2
+    rw [h1, h2] at this
+    simp at this; omega
+  · subst heq
+    rw [h1] at h2
+    have := Option.some.inj h2
+    omega
+
+/-! ## cycles -/
+
+/-- **A cycle is not passed over silently**: when `checkCycles` is set and a listing is returned, the closure
+has no non-trivial component — two different products of the closure are never mutually reachable.
+(Contrapositive: a closure with a cycle makes `checkCycles` raise.) -/
+theorem C13_cycle_reported_partial (db : Db) (hns : NoUnsetup db) (fuel : Nat) (top : Prod)
+    (hsv : SingleVersion db top) (out : List Entry)
+    (h : getDependentProducts db fuel top true true = .ok out)
+    (a b : Prod) (ha : a = top ∨ Listed db [] top a) (hb : b = top ∨ Listed db [] top b)
+    (hab : DepPath db top a b) (hba : DepPath db top b a) : a = b := by
+  obtain ⟨out1, st1, st2, ls, h1, h2, h3, _⟩ := getDependentProducts_topo_unfold (tableMissing_false hns top) h
+  have h2' := second_pass_eq hns hsv h1
+  rw [h2'] at h2
+  have hst : st2.2 = st1 := ((_root_.Prod.mk.inj (Option.some.inj h2)).2).symm
+  rw [hst] at h3
+  obtain ⟨o, hd, _⟩ := listing_unfold h1
+  have C := depsOf_post db hns [] _ _ _ _ _ _ hd
+  obtain ⟨_, _, _, _, hcyc⟩ := topologicalSort_ok h3
+  exact hcyc rfl a ((keys_graph_iff C a).mpr ha) b ((keys_graph_iff C b).mpr hb)
+    (depPath_to_path C hab) (depPath_to_path C hba)
+
+/-- **Cycle reported** (partial: hypothesis `SingleVersion`, D31): a closure in which two different products
+are mutually reachable makes `checkCycles` raise the cycle error — with the driver's fuel the outcome is
+exactly `cycle` — while without `checkCycles` the listing is still returned. -/
+theorem C13_cycle_reported (db : Db) (hns : NoUnsetup db) (top : Prod) (hsv : SingleVersion db top)
+    (a b : Prod) (ha : a = top ∨ Listed db [] top a) (hb : b = top ∨ Listed db [] top b) (hne : a ≠ b)
+    (hab : DepPath db top a b) (hba : DepPath db top b a) :
+    getDependentProducts db db.fuel top true true = .cycle ∧
+      ∃ out, getDependentProducts db db.fuel top true false = .ok out := by
+  constructor
+  · rcases getDependentProducts_total db hns top true true with ⟨out, h⟩ | ⟨_, h⟩
+    · exact absurd (C13_cycle_reported_partial db hns _ top hsv out h a b ha hb hab hba) hne
+    · exact h
+  · rcases getDependentProducts_total db hns top true false with h | ⟨h, _⟩
+    · exact h
+    · exact absurd h (by simp)
+
+/-! ## totality -/
+
+/-- **The listing never raises** (repaired tree; D18 was the `TypeError`): on every database without unsetup
+lines, for every root and every mode, the outcome is a listing — or, only when `checkCycles` is set, the cycle
+report.  No other error, no non-termination, also with two versions of a product and unresolved names. -/
+theorem C13_topological_total (db : Db) (hns : NoUnsetup db) (top : Prod) (topological cc : Bool) :
+    (∃ out, getDependentProducts db db.fuel top topological cc = .ok out) ∨
+      (cc = true ∧ getDependentProducts db db.fuel top topological cc = .cycle) :=
+  getDependentProducts_total db hns top topological cc
+
+/-- **`uses` never raises** (repaired tree; D2 was the `TypeError`): the index is built for every database
+without unsetup lines, and `users` is a total function of it — "the query answers without error even when a
+product depends on two versions of another". -/
+theorem C13_uses_total (db : Db) (hns : NoUnsetup db) : ∃ sb, usesInfo db db.fuel = .ok sb :=
+  usesInfo_total db hns
+
+/-! ## `uses` is the inverse of the listings -/
+
+/-- **Inverse.**  `Y w` is reported as a user of `X` (needing version `need`; the query names version `q` or
+none) exactly when `Y w` is declared and its dependency listing holds `X need`. -/
+theorem C13_uses_inverse (db : Db) (fuel : Nat) (sb : SetupBy) (h : usesInfo db fuel = .ok sb)
+    (X : Str) (q : Option Str) (Y w : Str) (need : Option Str) :
+    (∃ u ∈ users sb X q, u.name = Y ∧ u.ver = w ∧ u.need = need) ↔
+      ((q = none ∨ need = q) ∧ ∃ d ∈ db.decls, d.name = Y ∧ d.ver = w ∧ ∃ l,
+        getDependentProducts db fuel ⟨Y, some w, true⟩ true false = .ok l ∧
+        ∃ e ∈ l, e.prod.name = X ∧ e.prod.ver = need) :=
+  uses_inverse db fuel sb h X q Y w need
+
+/-- The same in terms of reachability: the users of `X` are the declared products from which a product named
+`X` is reachable through resolved tables. -/
+theorem C13_uses_is_reach (db : Db) (hns : NoUnsetup db) (sb : SetupBy) (h : usesInfo db db.fuel = .ok sb)
+    (X : Str) (q : Option Str) (Y w : Str) (need : Option Str) :
+    (∃ u ∈ users sb X q, u.name = Y ∧ u.ver = w ∧ u.need = need) ↔
+      ((q = none ∨ need = q) ∧ (∃ d ∈ db.decls, d.name = Y ∧ d.ver = w) ∧
+        ∃ v, Listed db [] ⟨Y, some w, true⟩ v ∧ v ≠ ⟨Y, some w, true⟩ ∧ v.name = X ∧ v.ver = need) := by
+  rw [C13_uses_inverse db db.fuel sb h]
+  constructor
+  · rintro ⟨hq, d, hd, h1, h2, l, hl, e, he, h3, h4⟩
+    refine ⟨hq, ⟨d, hd, h1, h2⟩, e.prod, ?_⟩
+    have := ((C13_topological_listing db hns _ _ _ l hl).2 e.prod).mp (List.mem_map.mpr ⟨e, he, rfl⟩)
+    exact ⟨this.1, this.2, h3, h4⟩
+  · rintro ⟨hq, ⟨d, hd, h1, h2⟩, v, hv, hne, h3, h4⟩
+    refine ⟨hq, d, hd, h1, h2, ?_⟩
+    rcases getDependentProducts_total db hns ⟨Y, some w, true⟩ true false with ⟨l, hl⟩ | ⟨hcc, _⟩
+    · refine ⟨l, hl, ?_⟩
+      have := ((C13_topological_listing db hns _ _ _ l hl).2 v).mpr ⟨hv, hne⟩
+      obtain ⟨e, he, rfl⟩ := List.mem_map.mp this
+      exact ⟨e, he, h3, h4⟩
+    · exact absurd hcc (by simp)
+
+/-! ## decidable sufficient conditions for the hypotheses, and concrete instances -/
+
+/-- `SingleVersion` can be read off the plain listing -/
+theorem singleVersion_of_listing (db : Db) (hns : NoUnsetup db) (top : Prod) (out : List Entry)
+    (h : getDependentProducts db db.fuel top false false = .ok out)
+    (hc : ∀ u ∈ top :: out.map (·.prod), ∀ v ∈ top :: out.map (·.prod), u.name = v.name → u = v) :
+    SingleVersion db top := by
+  obtain ⟨out', h', hiff⟩ := C13_listing_is_reach db hns top
+  rw [h] at h'
+  have : out = out' := by injection h'
+  subst this
+  have hmem : ∀ u, (u = top ∨ Listed db [] top u) → u ∈ top :: out.map (·.prod) := by
+    intro u hu
+    by_cases hut : u = top
+    · simp [hut]
+    · rcases hu with hu | hu
+      · exact absurd hu hut
+      · exact List.mem_cons_of_mem _ ((hiff u).mpr ⟨hu, hut⟩)
+  intro u v hu hv hn
+  exact hc u (hmem u hu) v (hmem v hv) hn
+
+section Examples
+private def s (x : String) : Str := Str.ofString x
+private def req (n : String) (v : Option String := none) : Dep := ⟨false, false, s n, v.map s, false⟩
+
+/-- a diamond `r → {a, b} → c`, `c` needing the undeclared `zz` -/
+def diamond : Db :=
+  { decls := [⟨s "r", s "1", [req "a", req "b"], false⟩, ⟨s "a", s "1", [req "c"], false⟩, ⟨s "b", s "1", [req "c"], false⟩,
+              ⟨s "c", s "1", [req "zz"], false⟩]
+    current := [(s "r", s "1"), (s "a", s "1"), (s "b", s "1"), (s "c", s "1")] }
+
+def rTop : Prod := ⟨s "r", some (s "1"), true⟩
+
+example : NoUnsetup diamond := by decide
+example : SingleVersion diamond rTop :=
+  singleVersion_of_listing diamond (by decide) rTop _ rfl (by decide)
+/-- the listing of the diamond: depths 2, 2, 3, 4 (the root has depth 1; placeholder `zz` deepest) -/
+example : (match getDependentProducts diamond diamond.fuel rTop true true with
+    | .ok l => l.map fun e => (e.prod.name, e.depth)
+    | _ => []) = [(s "a", some 2), (s "b", some 2), (s "c", some 3), (s "zz", some 4)] := by decide
+
+/-- D31: `r 1 → b 2, b`; `b 2 → c`; `b 1` current.  Both versions of `b` and `c` end at depth 2 although
+`b 2` depends on `c`, which depends on nothing: the order clause is false without `SingleVersion`. -/
+def d31 : Db :=
+  { decls := [⟨s "c", s "1", [], false⟩, ⟨s "b", s "1", [], false⟩, ⟨s "b", s "2", [req "c"], false⟩,
+              ⟨s "r", s "1", [req "b" (some "2"), req "b"], false⟩]
+    current := [(s "c", s "1"), (s "b", s "1"), (s "r", s "1")] }
+
+end Examples
+
+/-- **Negation witness for the unrestricted order clause** (known finding D31): a database without unsetup
+lines, a root, and two listed entries `b 2 → c 1` joined by a line of an opened table, `c 1` having no
+dependency at all, with *equal* depth. -/
+theorem C13_topological_two_versions_witness :
+    ∃ (db : Db) (top : Prod) (out : List Entry) (eu ev : Entry),
+      NoUnsetup db ∧ getDependentProducts db db.fuel top true false = .ok out ∧ eu ∈ out ∧ ev ∈ out ∧
+      (∃ d ∈ db.table eu.prod, target db [] d = ev.prod) ∧ db.table ev.prod = [] ∧
+      eu.prod ≠ ev.prod ∧ eu.depth = ev.depth :=
+  ⟨d31, rTop, _, ⟨⟨s "b", some (s "2"), true⟩, false, some 2⟩, ⟨⟨s "c", some (s "1"), true⟩, false, some 2⟩,
+    by decide, rfl, by decide, by decide, by decide, by decide, by decide, rfl⟩
+
+/-! ## the pinned tree: negation witnesses for the two `TypeError`s -/
+
+section PinnedExamples
+private def s' (x : String) : Str := Str.ofString x
+private def req' (n : String) (v : Option String := none) : Dep := ⟨false, false, s' n, v.map s', false⟩
+private def opt' (n : String) (v : Option String := none) : Dep := ⟨false, true, s' n, v.map s', false⟩
+
+/-- corpus/C13/d18_placeholder_versions.json -/
+def d18 : Db :=
+  { decls := [⟨s' "e", s' "2", [], false⟩, ⟨s' "c", s' "1", [req' "e"], false⟩,
+              ⟨s' "b", s' "1", [req' "c", req' "e" (some "1")], false⟩, ⟨s' "a", s' "1", [req' "b", opt' "zz"], false⟩]
+    current := [(s' "e", s' "2"), (s' "c", s' "1"), (s' "b", s' "1"), (s' "a", s' "1")] }
+
+/-- corpus/C13/d2_uses_two_versions.json -/
+def d2 : Db :=
+  { decls := [⟨s' "e", s' "1", [], false⟩, ⟨s' "e", s' "2", [], false⟩, ⟨s' "c", s' "1", [req' "e"], false⟩,
+              ⟨s' "a", s' "1", [req' "e" (some "1"), opt' "c"], false⟩]
+    current := [(s' "e", s' "2"), (s' "c", s' "1"), (s' "a", s' "1")] }
+end PinnedExamples
+
+/-- **Pinned tree, D18**: `C13_topological_total` was false before the repair of `Product.__lt__` — on this
+database (no unsetup lines) the layer that `topologicalSort` sorts for the root `a 1` holds the placeholders
+`(e, None)` and `(e, "1")`, and comparing them raised `TypeError`.  The repaired model lists it. -/
+theorem C13_topological_typeerror_witness :
+    NoUnsetup d18 ∧ topologicalRaisesPinned d18 d18.fuel ⟨Str.ofString "a", some (Str.ofString "1"), true⟩ = true ∧
+    ∃ out, getDependentProducts d18 d18.fuel ⟨Str.ofString "a", some (Str.ofString "1"), true⟩ true false = .ok out :=
+  ⟨by decide, by decide, _, rfl⟩
+
+/-- **Pinned tree, D2**: `C13_uses_total` was false before the repair of `Uses.users` — `a 1` reaches `e 1`
+directly and `e 2` through `c`, the query `uses e` collects two entries for the user `a 1`, and comparing
+their `Props` raised `TypeError`.  The repaired model answers with both. -/
+theorem C13_uses_typeerror_witness :
+    ∃ sb, usesInfo d2 d2.fuel = .ok sb ∧ usersRaisesPinned sb (Str.ofString "e") none = true ∧
+      (users sb (Str.ofString "e") none).map (fun u => (u.name, u.ver, u.need)) =
+        [(Str.ofString "a", Str.ofString "1", some (Str.ofString "1")),
+         (Str.ofString "a", Str.ofString "1", some (Str.ofString "2")),
+         (Str.ofString "c", Str.ofString "1", some (Str.ofString "2"))] :=
+  ⟨_, rfl, by decide, by decide⟩
+
+/-! ## the layering loop (generic part, kept from the first pass) -/
+
+/-- Order clause on the layering loop of `utils.topologicalSort`: for every graph with one entry per node and
+every edge `u → v` whose two ends receive a layer, the layer of `v` is emitted strictly before the layer of `u`. -/
+theorem C13_layering_edge_order {α : Type} [DecidableEq α] (f : Nat) (g : Graph α) (ls : List (List α)) (rest : Graph α)
+    (hk : (keys g).Nodup) (h : layers f g = some (ls, rest))
+    (u : α) (du : List α) (v : α) (hu : (u, du) ∈ g) (hv : v ∈ du)
+    (i j : Nat) (hi : level ls u = some i) (hj : level ls v = some j) : j < i :=
+  edge_order f g ls rest hk h u du v hu hv i j hi hj
+
+/-- The loop stops only when every remaining node still has a dependency (the "cyclic dependency" exit), and
+every node is either emitted in a layer or part of that remainder. -/
+theorem C13_layering_complete {α : Type} [DecidableEq α] (f : Nat) (g : Graph α) (ls : List (List α)) (rest : Graph α)
+    (h : layers f g = some (ls, rest)) :
+    ready rest = [] ∧ ∀ u ∈ keys g, (∃ l ∈ ls, u ∈ l) ∨ u ∈ keys rest :=
+  ⟨leftover_stuck f g ls rest h, layered_or_left f g ls rest h⟩
+
+/-- The fuel the model gives the loop (number of nodes + 1) always suffices. -/
+theorem C13_layering_fuel {α : Type} [DecidableEq α] (g : Graph α) : (layers (g.length + 1) g).isSome :=
+  layers_fuel _ g (Nat.lt_succ_self _)
+
+/-- What `topologicalSort` guarantees when it returns layers: every node of the graph sits in exactly one
+layer, every edge between different mutual-reachability classes goes to a strictly earlier layer, and with
+`checkCycles` no two different nodes are mutually reachable. -/
+theorem C13_topologicalSort_spec {α : Type} [DecidableEq α] (g0 : Graph α) (cc : Bool) (ls : List (List α))
+    (h : topologicalSort g0 cc = .ok ls) :
+    ∃ lvl : α → Nat,
+      (∀ a ∈ keys (normalise g0), lvl a < ls.length ∧ ∀ (i : Nat) (hi : i < ls.length), a ∈ ls[i] ↔ i = lvl a) ∧
+      (∀ l ∈ ls, ∀ a ∈ l, a ∈ keys (normalise g0)) ∧
+      (∀ a ∈ keys (normalise g0), ∀ b ∈ succs (normalise g0) a, ¬ Path (normalise g0) b a → lvl b < lvl a) ∧
+      (cc = true → ∀ a ∈ keys (normalise g0), ∀ b ∈ keys (normalise g0),
+          Path (normalise g0) a b → Path (normalise g0) b a → a = b) :=
+  topologicalSort_ok h
+
+/-- Non-vacuity: a diamond 0 → {1,2} → 3 is layered bottom-up; a 2-cycle below a node is left over. -/
+example : layers 5 [(0, [1, 2]), (1, [3]), (2, [3]), (3, [])] = some ([[3], [1, 2], [0]], []) := by decide
+example : layers 5 [(0, [1]), (1, [2]), (2, [1])] = some ([], [(0, [1]), (1, [2]), (2, [1])]) := by decide
+example : topologicalSort [(0, [1]), (1, [2]), (2, [1]), (3, [])] false = .ok [[1, 2, 3], [0]] := by decide
+example : topologicalSort [(0, [1]), (1, [2]), (2, [1])] true = .cycle := by decide
+
+end EupsModel.C13
